@@ -136,6 +136,14 @@ impl Trace for TupleStr {
   }
 }
 
+/// Instantiate the error class with the message and raise the instance
+fn raise_error(hooks: &mut Hooks, error: Value, message: String) -> Call {
+  let message = val!(hooks.manage_str(message));
+  let instance = hooks.call(error, &[message])?;
+
+  Call::Err(LyError::Err(instance.to_obj().to_instance()))
+}
+
 fn quote_string(buf: &mut String, string: &str) {
   buf.push('\'');
   buf.push_str(string);
@@ -170,11 +178,10 @@ impl LyNative for TupleStr {
           buf.push_str(", ");
         } else {
           // if error throw away temporary strings
-          return hooks.call(
+          return raise_error(
+            hooks,
             self.error,
-            &[val!(hooks.manage_str(format!(
-              "Expected type str from {item}.str()"
-            )))],
+            format!("Expected type str from {item}.str()"),
           );
         });
       }
@@ -191,12 +198,10 @@ impl LyNative for TupleStr {
           buf.push_str(&string);
         } else {
           // if error throw away temporary strings
-          return hooks.call(
+          return raise_error(
+            hooks,
             self.error,
-            &[val!(hooks.manage_str(format!(
-              "Expected type str from {}.str()",
-              *last
-            )))],
+            format!("Expected type str from {}.str()", *last),
           );
         });
       })
